@@ -1,9 +1,9 @@
 package luaprop
 
 // fragclass: which of the PROVED fragments of the fragment-compiler theorems (coq/CC) a generated
-// fragment program falls in. A Go mirror of FragSem.in_frag (F0), Frag1Sem.in_frag1 (F1) and
-// Frag2Sem.in_frag2 (F2) without their register-budget side conditions (never reached by the
-// generator's programs). Statistics only (the Class of the case): nothing is decided from it, the
+// fragment program falls in. A Go mirror of FragSem.in_frag (F0), Frag1Sem.in_frag1 (F1),
+// Frag2Sem.in_frag2 (F2) and Frag3Sem.in_frag3 (F3) without their register-budget side conditions
+// (never reached by the generator's programs). Statistics only (the Class of the case): nothing is decided from it, the
 // Coq predicates are the definitions.
 
 import "verifh/luagen"
@@ -38,7 +38,15 @@ func fcEstr(T []string, e luagen.Expr) bool {
 	return false
 }
 
-// expression of F2 relative to T; with strs=false: expression of F0/F1 (no string literal)
+// the keys of the initial global table of the Coq models (Lua/Run.v g_globals)
+var fcGlobalKeys = []string{"emit", "type", "tostring", "tonumber", "select", "unpack", "next", "pairs", "ipairs",
+	"rawget", "rawset", "rawequal", "setmetatable", "getmetatable", "getfenv", "setfenv", "pcall", "xpcall",
+	"error", "assert", "newud", "coroutine", "table", "string", "math", "_G"}
+
+// fcGlobals: reads of undefined globals are allowed (F3)
+var fcGlobals bool
+
+// expression of F2/F3 relative to T; with strs=false: expression of F0/F1 (no string literal)
 func fcExpr(T, locals []string, e luagen.Expr, strs bool) bool {
 	switch x := e.(type) {
 	case *luagen.Nil, *luagen.True, *luagen.False, *luagen.Num:
@@ -46,7 +54,7 @@ func fcExpr(T, locals []string, e luagen.Expr, strs bool) bool {
 	case *luagen.Str:
 		return strs
 	case *luagen.Var:
-		return fcHas(locals, x.Name)
+		return fcHas(locals, x.Name) || (fcGlobals && !fcHas(fcGlobalKeys, x.Name))
 	case *luagen.Paren:
 		return fcExpr(T, locals, x.E, strs)
 	case *luagen.Bin:
@@ -144,9 +152,10 @@ func fcStmts(T []string, prog []luagen.Stmt, strs, multi bool) bool {
 	return true
 }
 
-// FragClass returns "F0", "F1", "F2" (the smallest proved fragment the program is in) or "tie"
-// (only the per-run tie of compile_frag with the real compiler covers it).
+// FragClass returns "F0", "F1", "F2", "F3" (the smallest proved fragment the program is in) or
+// "tie" (only the per-run tie of compile_frag with the real compiler covers it).
 func FragClass(prog []luagen.Stmt) string {
+	fcGlobals = false
 	if fcStmts(nil, prog, false, false) {
 		return "F0"
 	}
@@ -163,6 +172,11 @@ func FragClass(prog []luagen.Stmt) string {
 	}
 	if fcStmts(T, prog, true, true) {
 		return "F2"
+	}
+	fcGlobals = true
+	defer func() { fcGlobals = false }()
+	if fcStmts(T, prog, true, true) {
+		return "F3"
 	}
 	return "tie"
 }
